@@ -151,6 +151,15 @@ theorem inv_step (s : PS) (a : Action) (s' : PS) (hi : Inv s) (h : step s a = so
       · intro hs; simp at hs
     · cases h
 
+  | linkEnd x =>
+    simp only [step] at h
+    split at h
+    · cases h
+      refine ⟨h1, h2, ?_, h4, h4', h5, h6, h7⟩
+      intro hr y hy
+      exact List.mem_cons_of_mem _ (h3 hr y (List.mem_filter.mp hy).1)
+    · cases h
+
 theorem inv_run (s : PS) (as : List Action) (hi : Inv s) : Inv (run s as) := by
   induction as generalizing s with
   | nil => exact hi
@@ -171,6 +180,127 @@ theorem C03_down (as : List Action) (h : (run {} as).stop = .returned) :
   have hi := inv_run {} as inv_init
   have hd := hi.closing_dead (Or.inr h)
   exact ⟨(hi.dead_exited hd).2, (hi.dead_exited hd).1, hi.returned_all h⟩
+
+/-- Every socket that was ever put into the proxy's registry is still there or has been closed:
+a finished link unregisters exactly the socket it has just closed. -/
+def EverInv (s : PS) : Prop := ∀ x ∈ s.everReg, x ∈ s.registered ∨ x ∈ s.closed
+
+theorem ever_step (s : PS) (a : Action) (s' : PS) (hi : EverInv s) (h : step s a = some s') : EverInv s' := by
+  have keep : ∀ t : PS, t.everReg = s.everReg → (∀ x, x ∈ s.registered → x ∈ t.registered ∨ x ∈ t.closed) →
+      (∀ x, x ∈ s.closed → x ∈ t.closed) → EverInv t := by
+    intro t he hr hc x hx
+    rw [he] at hx
+    rcases hi x hx with h' | h'
+    · exact hr x h'
+    · exact .inr (hc x h')
+  cases a with
+  | register =>
+    simp only [step] at h
+    split at h
+    · rename_i c u _; cases h
+      intro x hx
+      simp only [List.mem_cons] at hx ⊢
+      rcases hx with rfl | rfl | hx
+      · exact .inl (.inl rfl)
+      · exact .inl (.inr (.inl rfl))
+      · rcases hi x hx with h' | h'
+        · exact .inl (.inr (.inr h'))
+        · exact .inr h'
+    · cases h
+  | linkEnd y =>
+    simp only [step] at h
+    split at h
+    · cases h
+      refine keep _ rfl ?_ (fun x hx => List.mem_cons_of_mem _ hx)
+      intro x hx
+      by_cases hxy : x = y
+      · subst hxy; exact .inr (List.mem_cons_self ..)
+      · exact .inl (List.mem_filter.mpr ⟨hx, by simpa using hxy⟩)
+    · cases h
+  | stopClose =>
+    simp only [step] at h
+    split at h
+    · cases h
+      exact keep _ rfl (fun x hx => .inl hx) (fun x hx => List.mem_append_right _ hx)
+    · cases h
+  | dialFail =>
+    simp only [step] at h
+    split at h
+    · cases h
+      exact keep _ rfl (fun x hx => .inl hx) (fun x hx => List.mem_cons_of_mem _ hx)
+    · cases h
+  | acceptOk c =>
+    simp only [step] at h
+    split at h
+    · cases h; exact keep _ rfl (fun x hx => .inl hx) (fun x hx => hx)
+    · cases h
+  | acceptErr =>
+    simp only [step] at h
+    split at h
+    · cases h; exact keep _ rfl (fun x hx => .inl hx) (fun x hx => hx)
+    · cases h
+  | acceptTransient =>
+    simp only [step] at h
+    split at h
+    · split at h <;> (cases h; exact keep _ rfl (fun x hx => .inl hx) (fun x hx => hx))
+    · cases h
+  | dialOk u =>
+    simp only [step] at h
+    split at h
+    · cases h; exact keep _ rfl (fun x hx => .inl hx) (fun x hx => hx)
+    · cases h
+  | fbWake =>
+    simp only [step] at h
+    split at h
+    · cases h; exact keep _ rfl (fun x hx => .inl hx) (fun x hx => hx)
+    · cases h
+  | fbClose =>
+    simp only [step] at h
+    split at h
+    · cases h; exact keep _ rfl (fun x hx => .inl hx) (fun x hx => hx)
+    · cases h
+  | fbJoin =>
+    simp only [step] at h
+    split at h
+    · cases h; exact keep _ rfl (fun x hx => .inl hx) (fun x hx => hx)
+    · cases h
+  | stopBegin =>
+    simp only [step] at h
+    split at h
+    · cases h; exact keep _ rfl (fun x hx => .inl hx) (fun x hx => hx)
+    · cases h
+  | stopWake =>
+    simp only [step] at h
+    split at h
+    · cases h; exact keep _ rfl (fun x hx => .inl hx) (fun x hx => hx)
+    · cases h
+
+theorem ever_run (s : PS) (as : List Action) (hi : EverInv s) : EverInv (run s as) := by
+  induction as generalizing s with
+  | nil => exact hi
+  | cons a as ih =>
+    simp only [run]
+    split
+    · rename_i s' h; exact ih s' (ever_step s a s' hi h)
+    · exact ih s hi
+
+/-- **C03 (every connection the proxy ever had is closed).**  For every schedule — clients
+connecting, links finishing one direction at a time and unregistering the socket they have just
+closed, the caller of `stop` — once `stop` has returned, every socket that was ever registered
+(client side and upstream side of every connection) has been closed by the proxy. -/
+theorem C03_all_closed (as : List Action) (h : (run {} as).stop = .returned) :
+    ∀ x ∈ (run {} as).everReg, x ∈ (run {} as).closed := by
+  intro x hx
+  rcases ever_run {} as (fun _ h' => by cases h') x hx with h' | h'
+  · exact (inv_run {} as inv_init).returned_all h x h'
+  · exact h'
+
+/-- Non-vacuity: one direction of a connection ends (its link closes socket 2 and unregisters
+it) before `stop` runs; `stop` then closes the other socket. -/
+example :
+    let s := run {} [.acceptOk 1, .dialOk 2, .register, .linkEnd 2, .stopBegin, .fbWake, .fbClose, .acceptErr,
+                     .fbJoin, .stopWake, .stopClose]
+    s.stop = .returned ∧ s.everReg = [1, 2] ∧ s.registered = [1] ∧ (1 ∈ s.closed ∧ 2 ∈ s.closed) := by decide
 
 /-- **C03 (nothing is accepted after the listener closed).** -/
 theorem C03_no_accept_after_close (s : PS) (c : Nat) (h : s.listenerOpen = false) :
